@@ -365,6 +365,7 @@ func init() {
 		}
 		return st
 	})
+	reg("vh/vf.ProtoJSONRoundTrip", func(e *Exec, a []Value) Value { return a[1] })
 	reg("vh/vf.WithTxHashOnly", func(e *Exec, a []Value) Value {
 		c := *a[0].(ModelVal).Obj.(*CtxModel)
 		c.TxHash = IfaceVal{T: types.NewSlice(types.Typ[types.Byte]), V: a[1]}
